@@ -662,6 +662,124 @@ def negative_time_stratum(ctx: Ctx, rng: random.Random, stats: dict):
     return out
 
 
+def late_short_leg_stratum(ctx: Ctx, rng: random.Random, stats: dict):
+    """Split points close to the END of a long call and short calls late in a scenario (seed C03/11: a leg shorter than
+    1e-5 of the elapsed time at which it ends was taken for rounding noise and skipped).  Two-body: the composed result
+    and the short late leg itself are held to the closed-form Kepler solution; perturbed: (start, T -> T + d) equals
+    (start + T, 0 -> d)."""
+    from resonaate.physics.orbits.kepler import solveKeplerProblemUniversal
+    out = {"splits": 0, "late_legs": 0, "late_twins": 0}
+    horizons = (86400.0, 21600.0, 3600.0) if ctx.quick else (86400.0, 43200.0, 21600.0, 3600.0, 600.0)
+    for hi, T in enumerate(horizons):
+        for di, d in enumerate((0.5, 1.0, 2.0, 0.1) if not ctx.quick else (0.5, 2.0)):
+            method = ("RK45", "DOP853")[(hi + di) % 2]
+            el, x0, period = random_orbit(rng)
+            dyn = make_dyn("tb", method, True, 2458849.5, False)
+            try:
+                with guard(300.0):
+                    whole = np.asarray(dyn.propagate(0.0, T, x0.copy()), dtype=float)
+                    mid = np.asarray(dyn.propagate(0.0, T - d, x0.copy()), dtype=float)
+                    comp = np.asarray(dyn.propagate(T - d, T, mid.copy()), dtype=float)
+                    # the same short leg late in a run of several days: elapsed time 3-5 d, duration d
+                    t_late = float(rng.choice((3, 4, 5))) * 86400.0 + float(rng.randrange(0, 86400))
+                    late = np.asarray(dyn.propagate(t_late, t_late + d, x0.copy()), dtype=float)
+            except Hang:
+                raise tlc.MachineryError("late short leg stratum: propagation without events did not return in 300 s")
+            s_ = (1.0 + T / period) ** 2
+            dr, dv = np.abs(whole - comp)[:3].max(), np.abs(whole - comp)[3:].max()
+            out["splits"] += 1
+            stats["comparisons"] += 1
+            ctx.case(("late-split", T, d, method, round(el["a"])), nontrivial=True)
+            if not (dr <= BASE_R * s_ and dv <= BASE_V * s_):
+                sig = "real:tb:late-split-composability"
+                stats["violations"] += 1
+                stats["by_signature"][sig] = stats["by_signature"].get(sig, 0) + 1
+                ctx.violation(sig, f"(b) real tb/{method}: 0 -> {T:g} s differs from 0 -> {T - d:g} -> {T:g} s by {dr:.3g} km / {dv:.3g} km/s "
+                              f"(tolerance {BASE_R * s_:.2g} / {BASE_V * s_:.2g}; a = {el['a']:.0f} km, e = {el['e']:.3f})",
+                              {"part": "late-split", "T": T, "d": d, "method": method, "orbit": el})
+            ref = np.asarray(solveKeplerProblemUniversal(x0.copy(), d), dtype=float).ravel()
+            dr, dv = np.abs(late - ref)[:3].max(), np.abs(late - ref)[3:].max()
+            out["late_legs"] += 1
+            stats["kepler_checks"] += 1
+            ctx.case(("late-leg", t_late, d, method, round(el["a"])), nontrivial=True)
+            if not (dr <= 10 * BASE_R + 1e-6 and dv <= 10 * BASE_V + 1e-9):
+                sig = "real:tb:late-short-leg-kepler"
+                stats["violations"] += 1
+                stats["by_signature"][sig] = stats["by_signature"].get(sig, 0) + 1
+                ctx.violation(sig, f"(b) real tb/{method}: the {d:g} s leg {t_late:g} -> {t_late + d:g} s differs from the closed-form Kepler "
+                              f"solution by {dr:.3g} km / {dv:.3g} km/s (a = {el['a']:.0f} km)",
+                              {"part": "late-leg", "t": t_late, "d": d, "method": method, "orbit": el})
+    for i in range(2 if ctx.quick else 6):
+        method = ("RK45", "DOP853")[i % 2]
+        el, x0, period = random_orbit(rng)
+        days, d = float(rng.choice((2, 3, 4))), float(rng.choice((1.0, 2.0, 5.0)))
+        jd = 2458849.5 + rng.randrange(0, 300)
+        dyn_a = make_dyn("sp", method, True, jd, False)
+        dyn_b = make_dyn("sp", method, True, jd + days, False)
+        try:
+            with guard(300.0):
+                ya = np.asarray(dyn_a.propagate(days * 86400.0, days * 86400.0 + d, x0.copy()), dtype=float)
+                yb = np.asarray(dyn_b.propagate(0.0, d, x0.copy()), dtype=float)
+        except Hang:
+            raise tlc.MachineryError("late short leg stratum: perturbed propagation did not return in 300 s")
+        dr, dv = np.abs(ya - yb)[:3].max(), np.abs(ya - yb)[3:].max()
+        out["late_twins"] += 1
+        stats["epoch_shift_checks"] += 1
+        ctx.case(("late-twin", jd, days, d, method, round(el["a"])), nontrivial=True)
+        if not (dr <= BASE_R * 4 and dv <= BASE_V * 4):
+            sig = "real:sp:epoch-shift-twin"
+            stats["violations"] += 1
+            stats["by_signature"][sig] = stats["by_signature"].get(sig, 0) + 1
+            ctx.violation(sig, f"(b) real sp/{method}: a {d:g} s leg written as (start, {days:g} d -> {days:g} d + {d:g} s) and as (start + {days:g} d, "
+                          f"0 -> {d:g} s) differs by {dr:.3g} km / {dv:.3g} km/s", {"part": "late-twin", "jd": jd, "days": days, "d": d,
+                                                                                  "method": method, "orbit": el})
+    return out
+
+
+def repeated_columns_stratum(ctx: Ctx, rng: random.Random, stats: dict):
+    """Batches in which some states occur more than once, in first-appearance orders that are not their sorted order
+    (seed C03/12: repeated columns integrated once and copied back through a wrong permutation): every column of the
+    batch - propagate and propagateBulk - equals the separate single-column call of ITS state."""
+    out = {"batches": 0, "columns": 0}
+    layouts = [(0, 1, 2, 3, 2, 0), (2, 0, 1, 0), (1, 2, 0, 2, 1), (3, 1, 0, 2, 3, 3), (0, 0, 1), (1, 0, 2, 1, 0, 2)]
+    for li, layout in enumerate(layouts if not ctx.quick else layouts[:4]):
+        method = ("RK45", "DOP853")[li % 2]
+        model = "sp" if li == 3 else "tb"
+        span = 1800.0 if model == "tb" else 600.0
+        base = []
+        while len(base) < max(layout) + 1:
+            o = random_orbit(rng)
+            base.append(o)
+        rng.shuffle(base)                    # first-appearance order unrelated to any ordering of the values
+        x0 = np.stack([base[j][1] for j in layout], axis=1)
+        dyn = make_dyn(model, method, True, 2458849.5 + li, False)
+        try:
+            with guard(600.0):
+                singles = [np.asarray(dyn.propagate(0.0, span, base[j][1].copy()), dtype=float).ravel() for j in range(len(base))]
+                both = np.asarray(dyn.propagate(0.0, span, x0.copy()), dtype=float)
+                bulk = np.asarray(dyn.propagateBulk(np.array([0.0, span / 2, span]), x0.copy()), dtype=float)
+        except Hang:
+            raise tlc.MachineryError("repeated columns stratum: propagation without events did not return in 600 s")
+        out["batches"] += 1
+        for kind, got in (("propagate", both), ("propagateBulk", bulk[:, :, -1] if bulk.ndim == 3 else bulk)):
+            for c, j in enumerate(layout):
+                s_ = (1.0 + span / base[j][2]) ** 2
+                dr, dv = np.abs(got[:3, c] - singles[j][:3]).max(), np.abs(got[3:, c] - singles[j][3:]).max()
+                out["columns"] += 1
+                stats["comparisons"] += 1
+                ctx.case(("repeated-columns", li, kind, c), nontrivial=True)
+                if not (dr <= BASE_R * s_ and dv <= BASE_V * s_):
+                    sig = f"real:{model}:{kind}:batch-with-repeated-states"
+                    stats["violations"] += 1
+                    stats["by_signature"][sig] = stats["by_signature"].get(sig, 0) + 1
+                    ctx.violation(sig, f"(b) real {model}/{method}: column {c} of a {len(layout)}-column {kind} batch with repeated states "
+                                  f"(layout {list(layout)}) differs from the separate call of its own state by {dr:.3g} km / {dv:.3g} km/s",
+                                  {"part": "repeated-columns", "layout": list(layout), "kind": kind, "column": c, "method": method,
+                                   "orbits": [b_[0] for b_ in base]})
+                    break
+    return out
+
+
 def shadow_stratum(ctx: Ctx, rng: random.Random, stats: dict):
     """BulkConsistent / batch-vs-single with the columns in DIFFERENT force regimes: solar radiation pressure on, one
     column sunlit for the whole call, another inside the Earth's umbra for the whole call (a low circular orbit in a plane
@@ -758,6 +876,8 @@ def real_replay(ctx: Ctx, behs, rng: random.Random):
     stats["shadow"] = shadow_stratum(ctx, random.Random(rng.getrandbits(32)), stats)
     stats["fractional_second_start"] = fractional_second_stratum(ctx, random.Random(rng.getrandbits(32)), stats)
     stats["negative_elapsed_time"] = negative_time_stratum(ctx, random.Random(rng.getrandbits(32)), stats)
+    stats["late_short_legs"] = late_short_leg_stratum(ctx, random.Random(20260929), stats)
+    stats["repeated_columns"] = repeated_columns_stratum(ctx, random.Random(20260930), stats)
     # behaviours in which the caller drops the events while the burn is ON, through the perturbed dynamics (the only real
     # model that reads finite_thrust): a fixed share of the sample, whatever the stratified draw below picks
     live_drop = sorted((b for b in behs if dropped(b) and b["burn"]["kind"] != "none" and b["burn"]["ts"] < b["dropAt"] and b["K"] <= 2),
